@@ -408,7 +408,7 @@ impl NodeState {
     /// Replaces the last `depth` blocks of the active chain by `new_blocks.len()` new ones whose
     /// contents are given (validated block by block). Disconnected transactions return to the
     /// mempool when still valid.
-    pub fn reorg(&mut self, depth: usize, new_blocks: &[Vec<Transaction>]) -> Vec<(BlockHash, Vec<Txid>)> {
+    pub fn reorg(&mut self, depth: usize, new_blocks: &[Vec<Transaction>], evict: bool) -> Vec<(BlockHash, Vec<Txid>)> {
         let depth = depth.min(self.active.len() - 1);
         let mut returned: Vec<Transaction> = Vec::new();
         for _ in 0..depth {
@@ -421,7 +421,8 @@ impl NodeState {
         }
         self.reindex();
         // disconnected txs go back to the mempool (in front of nothing: mempool order = old mempool then returned)
-        let mut pool = returned;
+        // (unless the node lost them: `evict`)
+        let mut pool = if evict { vec![] } else { returned };
         pool.extend(std::mem::take(&mut self.mempool));
         self.mempool = pool;
         self.revalidate_mempool();
